@@ -339,7 +339,8 @@ def conforms(S, v) -> bool:
 def follow(root, path):
     cur = root
     for k in path:
-        cur = cur[k]
+        # th's PathHolder iterates over accessor objects (ItemAccessor('p'), ...) that apply themselves to a target
+        cur = k(cur) if callable(k) else cur[k]
     return cur
 
 
@@ -1058,6 +1059,9 @@ def oracle_C07(inp, meta=None):
             return True, (f"{before}.{meta['method']}(<list/dict>) then mutating the argument changes the schema: "
                           f"{text} -> {R!r}")
         return False, "argument mutation does not reach the schema"
+    if "schema" in inp and inp["schema"].get("k") == "expr" and "keys" not in inp:
+        from replay.complement import ownership_case
+        return ownership_case(inp["schema"]["src"])
     if "schema" in inp and "keys" in inp:
         from d42.utils import make_required
         d, ks = build(inp["schema"]), build(inp["keys"])
@@ -1111,6 +1115,7 @@ def _fake_in_subprocess(exprs, hashseed):
         "import sys, json; sys.path.insert(0, %r)\n"
         "from uuid import UUID; import datetime\n"
         "from d42 import schema, optional, fake\n"
+        "from d42.utils import make_required\n"
         "from d42.generation import Random\n"
         "out = []\n"
         "for k in (0, 42, 'seed'):\n"
@@ -1136,7 +1141,9 @@ C17_ZOO = ["schema.int.min(0).max(10)", "schema.str.len(8)", "schema.str.alphabe
            # schemas built through the combinators (key / alternative order must not depend on the hash seed)
            "schema.dict({'id': schema.int, 'name': schema.str.len(3)}) + schema.dict({'tag': schema.str.len(2), 'n': schema.int})",
            "schema.list(schema.dict({'a': schema.int}) + schema.dict({'b': schema.int, 'c': schema.int})).len(2)",
-           "schema.int | schema.str.len(4) | schema.none", "schema.int.min(0).max(99)"]
+           "schema.int | schema.str.len(4) | schema.none", "schema.int.min(0).max(99)",
+           "make_required(schema.dict({optional('name'): schema.str.len(5), optional('age'): schema.int, optional('tag'): schema.str.len(2)}))",
+           "make_required(schema.dict({optional('name'): schema.str.len(5), optional('age'): schema.int, 'id': schema.int}), {'name', 'age'})"]
 
 
 def oracle_C17(inp, meta=None):
